@@ -33,7 +33,7 @@ ASSUMPTIONS = [
     "base table of 3 rows (thorough 4) plus one (thorough two) foreign rows that growth operations may add once; row cap 4 (thorough 6)",
     "specifications outside the documented parameter types (a polars boolean Series passed to subset) may either work correctly or raise",
     "orientations compared to 1e-5 rad (float32 rotation vectors in data-frame round trips)",
-    "added during the seeding waves: cutby / group_by on a key with nulls or NaNs (rejected loudly or a partition), accumulator idioms, a same-object family (read-only operations x in-place updates incl. axis vectors), tables without features / with a feature of another dtype through concat, concat_with, append (all ordered pairs; thorough: triples)",
+    "added during the seeding waves: cutby / group_by on a key with nulls or NaNs (rejected loudly or a partition), empty selections keep the feature schema, accumulator idioms, a same-object family (read-only operations x in-place updates incl. axis vectors), tables without features / with a feature of another dtype through concat, concat_with, append (all ordered pairs; thorough: triples)",
 ]
 
 
@@ -610,6 +610,30 @@ def null_keys(tier, report):
                     if bad:
                         report.violations.append((f"{ID}|null-keys|{pname}|rows", f"score with {kind}: {bad}", case))
                         break
+    # selections that keep nothing still carry the feature columns and dtypes of their source (wave 10 seed C13j)
+    src = make(uids)
+    want = [(c, str(t)) for c, t in src.features.schema.items()]
+    empties = {
+        "filter(uid<0)": lambda: src.filter(pl.col("uid") < 0),
+        "subset([])": lambda: src.subset([]),
+        "subset(slice(0,0))": lambda: src.subset(slice(0, 0)),
+        "head(0)": lambda: src.head(0),
+        "filter->filter": lambda: src.filter(pl.col("k") >= 2).filter(pl.col("uid") < 0),
+        "filter->sort": lambda: src.filter(pl.col("uid") < 0).sort("k"),
+        "filter->copy": lambda: src.filter(pl.col("uid") < 0).copy(),
+        "filter->concat-with-source": lambda: src.filter(pl.col("uid") < 0).concat_with(src).filter(pl.col("uid") < 0),
+    }
+    for pname, fn in empties.items():
+        n += 1
+        case = {"engine": "E1", "family": "empty-selection", "probe": pname}
+        try:
+            e = fn()
+        except Exception as exc:  # an empty selection is a legal result
+            report.violations.append((f"{ID}|empty-selection|{pname}|raised", f"{type(exc).__name__}: {exc}", case))
+            continue
+        got = [(c, str(t)) for c, t in e.features.schema.items()]
+        if e.count() != 0 or got != want:
+            report.violations.append((f"{ID}|empty-selection|{pname}|schema", f"{e.count()} rows, feature schema {got}; the source has {want}", case))
     return n
 
 
